@@ -15,6 +15,7 @@ from typing import Any, List
 import numpy as np
 
 from mc import qsim, simctl, world
+from mc.report import guard_harness as _guard
 from mc.report import add_sample, add_violation, count, new_part
 
 LEVEL = "exploration"
@@ -53,6 +54,7 @@ def check_angle(angle: float, tol: float, part) -> bool:
     except _Timeout:
         raise
     except Exception as exc:
+        _guard(exc)
         add_violation(part, "raises", f"get_angle_spec_from_float raised {type(exc).__name__}: {exc}", case)
         return False
     if len(nds) > 64:
@@ -144,6 +146,7 @@ def shard_sdk(shard):
             getattr(q, f"rot_{axis.upper()}")(angle=a)
             conn.flush()
         except Exception as exc:
+            _guard(exc)
             add_violation(part, "sdk-raises", f"rot_{axis.upper()}(angle={a}) raised {type(exc).__name__}: {str(exc)[:150]}", case)
             continue
         steps = [(int(n), int(d)) for n, d in get_angle_spec_from_float(a)]
